@@ -28,17 +28,21 @@ BagOfSeq(q) == [x \in Rng(q) |-> Cardinality({i \in 1..Len(q) : q[i] = x})]
 Tokens(str) == BagOfSeq(SplitSp(Chars(str), 1, <<>>))
 
 PartViol(p, name) == V(p.r = "ok", "panic-" \o name) \cup (IF p.r = "ok" THEN V(Normalised(Chars(p.s)), "whitespace-" \o name) ELSE {})
+\* NV_C16_MODE = "global": only the history property (M6) over the WHOLE observation file (one judge);
+\*               "local":  only the per-observation clauses (the file may be sharded);  "all": both
+Mode == IOEnv.NV_C16_MODE
 Viol(o) ==
   IF "texts" \notin DOMAIN o.o THEN {"build-fail"} ELSE
   LET ts == o.o.texts  ok == OkTexts(o) IN
-  V(ok = 1..Len(ts), "panic")
-  \cup UNION {V(Normalised(Chars(ts[i].s)), "whitespace") : i \in ok}
-  \cup UNION {V(J2N(ts[i].pv) = J2N(o.c.v), "harness-built-other-value") : i \in ok}
-  \cup V(\A i \in ok : \A j \in ok : Tokens(ts[i].s) = Tokens(ts[j].s) /\ Len(ts[i].s) = Len(ts[j].s), "equal-values-render-differently")
-  \cup V(\A i \in ok : ts[i].s \notin Ambiguous, "two-values-one-text")
-  \cup UNION {PartViol(o.o.parts[f], f) : f \in DOMAIN o.o.parts}
+  (IF Mode = "global" THEN {} ELSE
+     V(ok = 1..Len(ts), "panic")
+     \cup UNION {V(Normalised(Chars(ts[i].s)), "whitespace") : i \in ok}
+     \cup UNION {V(J2N(ts[i].pv) = J2N(o.c.v), "harness-built-other-value") : i \in ok}
+     \cup V(\A i \in ok : \A j \in ok : Tokens(ts[i].s) = Tokens(ts[j].s) /\ Len(ts[i].s) = Len(ts[j].s), "equal-values-render-differently")
+     \cup UNION {PartViol(o.o.parts[f], f) : f \in DOMAIN o.o.parts})
+  \cup (IF Mode = "local" THEN {} ELSE V(\A i \in ok : ts[i].s \notin Ambiguous, "two-values-one-text"))
 \* the layout model on the iteration order this instance had
-Drift(o) == IF "texts" \notin DOMAIN o.o THEN {} ELSE
+Drift(o) == IF "texts" \notin DOMAIN o.o \/ Mode = "global" THEN {} ELSE
             LET ok == OkTexts(o)
                 Ord(j) == CASE j.kind = "term" -> [kind |-> "term", v |-> J2O(j.v)]
                             [] j.kind = "sentence" -> [kind |-> "sentence", v |-> [t |-> J2O(j.v.t), p |-> j.v.p, st |-> j.v.st, tr |-> SeqOf(j.v.tr)]]
